@@ -101,6 +101,8 @@ class FixedPoint:
             if x[0] == 'vn':
                 n = self.world['vnames'][x[1]]
                 t[self.P.vname_id(n['b'], x[1])] = x
+            if x[0] == 'w':
+                t[self.P.whole_id(x)] = x
         for x in refs_of(expr):
             if x[0] == 'r':
                 t[self.P.rect_id(*x[1:])] = x
@@ -177,6 +179,24 @@ class FixedPoint:
                 if v is None:
                     return 'skip', 'missing name value'
                 args.append(v)
+                continue
+            if x[0] == 'w':
+                # the window's observed values inside an otherwise blank
+                # sheet-wide strip
+                ref = ['r'] + x[1:7]
+                val = obs.rect(ref)
+                if val is None:
+                    return 'skip', 'missing input'
+                row1, col1 = self.P.rc(x[1], x[2], x[3], x[4])
+                if x[7] == 'row':
+                    big = np.empty((val.shape[0], 16384), object)
+                    big[:] = sh.EMPTY
+                    big[:, col1 - 1:col1 - 1 + val.shape[1]] = val
+                else:
+                    big = np.empty((1048576, val.shape[1]), object)
+                    big[:] = sh.EMPTY
+                    big[row1 - 1:row1 - 1 + val.shape[0], :] = val
+                args.append(Ranges().push(key, big))
                 continue
             if x[0] == 'nm' and x[1] in getattr(obs, 'bad_names', ()):
                 # undefined name (fault worlds): the library feeds the error
